@@ -38,6 +38,9 @@ func propC08(w *World, r *Report) {
 	}
 	RunNarrowSucc(w, r, succ, br08)
 	RunNarrowSuccControl(r)
+	r.Conds["classdef-format1-range"] = condFieldBoundedOrHuge(w, br08, "(opentype/classdef.Table).getEncInfo", "format1Size", 6+2*0xFFFF)
+	RunNarrowBound(w, r, succ, br08)
+	RunControl(r, "narrowbound", "ctlWrapBound|", func(cw *World, rr *Report, fns []*ssa.Function) { RunNarrowBound(cw, rr, fns, newBoundsRun(cw)) })
 	checkTagPad(w, r)
 	r.Floor("deadguard", 10)
 	r.Floor("twinformula", 1)
